@@ -105,6 +105,18 @@ def gen_cases(tier, seed):
                 orders = r.sample(orders, 24)
             for o in orders:
                 cases.append((dom, es, list(o)))
+    # chordless cycles of length 5-7: the smallest structures on which fill-in edges must themselves
+    # be taken into account by later eliminations
+    for n in (5, 6, 7):
+        attrs = names[:n]
+        ring = [[attrs[i], attrs[(i + 1) % n]] for i in range(n)]
+        dom = [[a, 2] for a in attrs]
+        perms = list(itertools.permutations(attrs)) if n == 5 else [tuple(r.sample(attrs, n)) for _ in range(40)]
+        if tier == 'quick':
+            perms = r.sample(perms, min(len(perms), 40))
+        for o in perms:
+            cases.append((dom, ring, list(o)))
+        cases.append((dom, ring, None))
     nrand = 150 if tier == 'quick' else 2500
     for _ in range(nrand):
         n = r.randint(3, 8 if tier == 'quick' else 10)
